@@ -16,6 +16,19 @@ CHECKS = {
                      "kind and for chains of full steps with a real multi-bunch wake field.",
                 technique="property-based differential testing (multi-bunch vs single-bunch), bitwise oracle",
                 ref="DESIGN.md §3 C08"),
+    "C01": dict(text="Generated-input search over every map kind, interpolation order, bunch count and displacement field with data constructed "
+                     "inside each row's admissible interval; two oracles: total-sum conservation and operator column sums from unit impulses; the "
+                     "Fokker-Planck zero-bin defect is bounded by a factor times the damping decrement and confined to 3 rows.",
+                technique="property-based testing (Hypothesis + ctypes shim), conservation and column-sum oracles", ref="DESIGN.md §3 C01"),
+    "C06": dict(text="Reference-model testing: wakePotential() against a direct O(N^2) float64 DFT convolution recomputed from the generated inputs, "
+                     "plus metamorphic relations (linearity, shift, independence of the negative-frequency half, exact padding).",
+                technique="property-based testing against an independent float64 reference model; metamorphic relations", ref="DESIGN.md §3 C06"),
+    "C07": dict(text="Generated passive impedances (models and random) and profiles; Parseval relation between CSR power and profile x wake with the DC and "
+                     "top-bin terms computed independently; exact non-negativity; cutoff monotonicity.",
+                technique="property-based testing, algebraic (Parseval) relation oracle", ref="DESIGN.md §3 C07"),
+    "C09": dict(text="Generated filling patterns (incl. empty buckets), extents and data; oracles: shares after normalisation, Simpson projections and moments "
+                     "recomputed in float64, analytic moments of Gaussian mixtures, bitwise isolation between bunches, bitwise copy construction.",
+                technique="property-based testing, float64 reference + metamorphic isolation/copy relations", ref="DESIGN.md §3 C09"),
 }
 
 NOT_YET = "check not built yet (in progress; see DESIGN.md §7 order of work)"
